@@ -176,6 +176,19 @@ def environment_acc(modname, funcname, payload, envname):
     return acc
 
 
+class SerialPool:
+    """A stand-in for Pool inside an environment run (one interpreter, no workers): tasks are executed in place."""
+
+    n = 1
+
+    def map(self, modname, funcname, payloads):
+        mod = importlib.import_module(modname)
+        return [getattr(mod, funcname)(p) for p in payloads]
+
+    def close(self):
+        pass
+
+
 def environment_task(p):
     """Worker: one whole environment run (used to re-run the history of a violation found in it)."""
     return environment_acc(p["modname"], p["funcname"], p["payload"], p["envname"])
